@@ -313,6 +313,11 @@ def parse_result(lines):
             r[p[0]] = (int(p[1]), p[2])
         elif p[0] == "span":
             r["span"] = None if p[1] == "none" else (unhx(p[1]), unhx(p[2]))
+        elif p[0] == "solm":
+            if len(p) >= 4 and p[3] == "ok" and p[1] in ("f", "r"):
+                r.setdefault("solm", []).append((p[1], unhx(p[2]), [unhx(x) for x in p[4].split(",")] if len(p) > 4 else []))
+            else:
+                r.setdefault("solm_status", {})[p[1]] = p[2:]
         elif p[0] == "sol":
             r.setdefault("sol", []).append((unhx(p[1]), p[2], [unhx(x) for x in p[3].split(",")] if len(p) > 3 else None))
         elif p[0] == "selfsol":
